@@ -120,6 +120,8 @@ type Exec struct {
 	Params         map[string]int
 	AssertFilter   func(id string) bool
 	initPhase      bool
+	pfVars         map[string]*sym.Term
+	pfText         map[int][]*sym.Term
 	InitSkipped    []string
 }
 
@@ -164,6 +166,7 @@ func New(prog *ssa.Program) (*Exec, error) {
 	}
 	ex.rtErrString = rt.Type("errorString").Object().Type()
 	installExternals(ex)
+	installDecimal(ex)
 	return ex, nil
 }
 
